@@ -527,7 +527,8 @@ func (c *CreateTableStatement) Format(opts FormatOptions) string {
 	if c.PartitionBy != nil {
 		sb.WriteString(" ")
 		sb.WriteString(f.kw("PARTITION BY"))
-		fmt.Fprintf(sb, " %s (%s)", c.PartitionBy.Type, strings.Join(c.PartitionBy.Columns, ", "))
+		fmt.Fprintf(sb, " %s (%s)", c.PartitionBy.Type, strings.Join(safeNames(c.PartitionBy.Columns), ", "))
+		sb.WriteString(partitionDefinitionsSQL(c.Partitions))
 	}
 
 	for _, opt := range c.Options {
